@@ -5,6 +5,8 @@
  *   thread <kind> <sp_off> <stack_pages> <name-hex|->     kind: block | spin | nullsp | exiter | vforker
  *   anon <pages> <perms rwx-> <unmap_after 0|1>            anonymous mapping with address-derived fill
  *   file <path> <offset> <pages> <perms>                   file mapping
+ *   anonat <hexaddr> <pages> <perms>                       anonymous mapping at a fixed address
+ *   filexat <hexaddr> <hexpath> <offset> <pages> <perms>   file mapping at a fixed address
  *   appmem <anon-index> <offset> <len>                     application memory region (reported on stdout)
  *   fd <kind>                                              file|dir|pipe|socket|eventfd
  *   chain <n> <cyclic 0|1>                                 synthetic PHDR/DYNAMIC/r_debug/link_map chain
@@ -142,6 +144,17 @@ int main(int argc, char **argv) {
       if (u2) munmap(m + (size_t)u1 * 4096, 4096);
       mprotect(m, (size_t)u1 * 4096, perms_of(a));
       A[NA].p = m; A[NA].pages = u1; fl += snprintf(facts + fl, sizeof facts - fl, " anon%d=%lx", NA, (unsigned long)m); NA++;
+    } else if (sscanf(line, "anonat %lx %u %63s", &ul1, &u1, a) == 3) {
+      /* anonymous mapping at a fixed (low) address: below the executable */
+      void *m = mmap((void *)ul1, (size_t)u1 * 4096, PROT_READ | PROT_WRITE, MAP_PRIVATE | MAP_ANONYMOUS | MAP_FIXED_NOREPLACE, -1, 0);
+      if (m != (void *)ul1) return 6;
+      mprotect(m, (size_t)u1 * 4096, perms_of(a));
+      fl += snprintf(facts + fl, sizeof facts - fl, " anonat=%lx", (unsigned long)m);
+    } else if (sscanf(line, "filexat %lx %511s %u %u %63s", &ul1, b, &u1, &u2, a) == 5) {
+      char path[256]; unhex(b, path, sizeof path);
+      int fd = open(path, O_RDONLY); void *m = mmap((void *)ul1, (size_t)u2 * 4096, perms_of(a), MAP_PRIVATE | MAP_FIXED_NOREPLACE, fd, (off_t)u1);
+      close(fd); if (m != (void *)ul1) return 7;
+      fl += snprintf(facts + fl, sizeof facts - fl, " filemapat=%lx", (unsigned long)m);
     } else if (sscanf(line, "filex %511s %u %u %63s", b, &u1, &u2, a) == 4) {
       /* path given in hex (may contain blanks / non-ASCII) */
       char path[256]; unhex(b, path, sizeof path);
